@@ -161,8 +161,13 @@ func (c *Client) Start(ctx context.Context) {
 
 func (c *Client) handleIncomingDelegation(ctx context.Context, link *protocol.Link, delegation net.Conn) error {
 	hostname := link.GetHostname()
+	// hold the config lock from the route lookup until the proxy is selected, so that a
+	// concurrent rebuild/reload cannot invalidate the proxy cache in between and leave a
+	// proxy built from the old route cached
+	c.configMu.RLock()
 	u, ok := c.Configuration.router.Load(hostname)
 	if !ok {
+		c.configMu.RUnlock()
 		c.Logger.Error("Unknown hostname in connection", zap.String("hostname", hostname))
 		delegation.Close()
 		return tun.ErrDestinationNotFound
@@ -176,11 +181,14 @@ func (c *Client) handleIncomingDelegation(ctx context.Context, link *protocol.Li
 	switch link.GetAlpn() {
 	case protocol.Link_HTTP:
 		c.getHTTPProxy(ctx, hostname, u).acceptor.Handle(delegation)
+		c.configMu.RUnlock()
 
 	case protocol.Link_TCP:
+		c.configMu.RUnlock()
 		c.forwardStream(ctx, hostname, delegation, u)
 
 	default:
+		c.configMu.RUnlock()
 		c.Logger.Error("Unknown alpn for forwarding", zap.String("alpn", link.GetAlpn().String()))
 		delegation.Close()
 		return tun.ErrDestinationNotFound
